@@ -515,6 +515,10 @@ class Worker:
             if type(e) is RuntimeError:
                 for addr in self._cancelled_task_ids:
                     if task.is_descendant_of(addr):
+                        # Drop the mailboxes the task opened after its
+                        # cancel was handled
+                        for mailbox_id in task.owned_mailboxes:
+                            self._mailboxes.pop(mailbox_id, None)
                         return
 
             assert self._active_task is not None  # for type checker
